@@ -92,11 +92,21 @@ def run_config(chk, config):
             else:
                 info["probs"].append("the loop stops after pushing %s (only an unusable length field may stop it)" % (nm or "Ok"))
     record_engine(chk, eng, "AVP::try_read_greedy [%s]: %s" % (config, {k: v for k, v in info.items() if k != "probs"}))
-    chk.oblig(not info["probs"] and info["back"] >= 40 and info["vendor_err"] >= 1 and info["stop_len"] >= 1 and info["stop_short"] >= 1,
-              "greedy | AVP::try_read_greedy", "greedy AVP reader: %s" % (sorted(set(info["probs"]))[:3] or info),
-              {"rule": "one result per record, in order; vendor-specific => error; stop only at <6 octets or an unusable length",
-               "problems": sorted(set(info["probs"])), "stats": {k: v for k, v in info.items() if k != "probs"}},
-              {"obligation": "greedy loop: one push per record; stops only at <6 octets or after InvalidAVPLength", "iteration_paths": info["back"], "exit_paths": info["exits"]})
+    gclauses = [
+        ("one result per record", lambda p: "pushes" in p or "6-octet header" in p or "neither Ok nor Err" in p, info["back"] >= 40),
+        ("vendor-specific records are errors", lambda p: "vendor" in p.lower(), info["vendor_err"] >= 1 and info["ok_push"] >= 1),
+        ("stops only at <6 octets or an unusable length", lambda p: "stop" in p, info["stop_len"] >= 1 and info["stop_short"] >= 1),
+    ]
+    seen = set()
+    for cname, pred, floor in gclauses:
+        mine = sorted(set(p for p in info["probs"] if pred(p)))
+        seen.update(mine)
+        chk.oblig(not mine and floor, "greedy | AVP::try_read_greedy | %s" % cname,
+                  "greedy AVP reader, %s: %s" % (cname, mine[:3] or "rule instances below the confirmed floor %s" % {k: v for k, v in info.items() if k != "probs"}),
+                  {"rule": cname, "problems": mine, "stats": {k: v for k, v in info.items() if k != "probs"}},
+                  {"obligation": "greedy loop: " + cname, "iteration_paths": info["back"], "exit_paths": info["exits"]})
+    rest = sorted(set(info["probs"]) - seen)
+    chk.oblig(not rest, "greedy | AVP::try_read_greedy", "greedy AVP reader: %s" % rest[:3], {"problems": rest})
     # ---------------- ControlMessage::try_read
     eng = new_engine(chk, fx)
     flags_ty = None
@@ -190,11 +200,22 @@ def run_config(chk, config):
         chk.notes.append("undecided clause (C15): " + u)
     if undecided and not probs:
         n_zlb = max(n_zlb, 1)
-    chk.oblig(not probs and n_ok >= 1 and n_zlb >= 1 and n_listerr >= 1, "all-or-nothing | ControlMessage::try_read",
-              "control message acceptance: %s" % (sorted(set(probs))[:3] or {"ok": n_ok, "zlb": n_zlb, "list_err": n_listerr}),
-              {"rule": "accept iff every record decodes and the first AVP is a Message Type; reject with the complete ordered error list",
-               "problems": sorted(set(probs)), "ok_paths": n_ok, "zlb_paths": n_zlb, "list_error_paths": n_listerr},
-              {"obligation": "ControlMessage::try_read: first-AVP rule, all-ok test, complete lists, ZLB accepted", "ok_paths": n_ok, "list_error_paths": n_listerr})
+    tclauses = [
+        ("all-ok test over the AVP results", lambda p: "all-ok test" in p or "is not excluded" in p, n_ok >= 1),
+        ("first AVP is a Message Type or the body is empty (ZLB accepted)", lambda p: "first AVP" in p, n_zlb >= 1),
+        ("accepted list holds every decoded AVP", lambda p: "accepted AVP list" in p, n_ok >= 1),
+        ("rejection returns the complete, unaltered error list", lambda p: "error list" in p, n_listerr >= 1),
+    ]
+    seen = set()
+    for cname, pred, floor in tclauses:
+        mine = sorted(set(p for p in probs if pred(p)))
+        seen.update(mine)
+        chk.oblig(not mine and floor, "all-or-nothing | ControlMessage::try_read | %s" % cname.split(" (")[0],
+                  "control message acceptance, %s: %s" % (cname, mine[:3] or {"ok": n_ok, "zlb": n_zlb, "list_err": n_listerr}),
+                  {"rule": cname, "problems": mine, "ok_paths": n_ok, "zlb_paths": n_zlb, "list_error_paths": n_listerr},
+                  {"obligation": "ControlMessage::try_read: " + cname, "ok_paths": n_ok, "list_error_paths": n_listerr})
+    rest = sorted(set(probs) - seen)
+    chk.oblig(not rest, "all-or-nothing | ControlMessage::try_read", "control message acceptance: %s" % rest[:3], {"problems": rest})
 
 
 def run(chk):
